@@ -19,6 +19,9 @@ CONSTANTS Behs,        \* behaviours of the designated function
           Positions,   \* where the designated function sits in the chain
           Handlers,    \* "default" | "contextual" | "reraise"
           ReKinds,     \* render_error: "default" | "raises" | "other" | "nonresp"
+          Siblings,    \* subset of BOOLEAN: TRUE = every behaviour route is preceded by a route with the same pattern that is
+                       \* restricted to a method no request uses, so DispatchState.allowed_methods is non-empty whenever the
+                       \* request falls through to the catch-all
           MaxReqs
 
 AllBehs == {"resp",            \* returns a Response
@@ -52,7 +55,7 @@ NoReq == [beh |-> "-", pos |-> "-"]
 NoVal == [k |-> "none", own |-> FALSE, brk |-> TRUE, cls |-> "-"]
 NoOut == [k |-> "-", status |-> "-", exc |-> "-"]
 
-Init == /\ cfg \in [handler : Handlers, re : ReKinds]
+Init == /\ cfg \in [handler : Handlers, re : ReKinds, sibling : Siblings]
         /\ hist = <<>> /\ cur = NoReq /\ pc = "idle" /\ val = NoVal /\ excs = <<>> /\ out = NoOut
 
 NewRequest(b, p) ==
@@ -104,7 +107,8 @@ Classify ==
          [] val.k = "http" /\ ~val.brk -> excs' = Append(excs, val) /\ pc' = "nullroute" /\ UNCHANGED out
     /\ UNCHANGED <<cfg, hist, cur, val>>
 
-\* the catch-all returns the most recent non-breaking error
+\* the catch-all returns the most recent non-breaking error - also when a method-restricted sibling was skipped on the
+\* way (cfg.sibling): a pending error outranks "405 Method Not Allowed"
 NullRoute ==
     /\ pc = "nullroute"
     /\ val' = excs[Len(excs)]
